@@ -80,7 +80,7 @@ def load_known_findings():
     if os.path.exists(path):
         for line in open(path):
             line = line.strip()
-            if line and not line.startswith("#"):
+            if line and line.startswith("{"):
                 out.append(json.loads(line))
     return out
 
@@ -218,7 +218,7 @@ class Report:
 
         seen = set()
         for k, o in known_hits:
-            key = k.get("id") or k.get("obligation")
+            key = (k.get("id"), k.get("obligation"))
             if key in seen:
                 continue
             seen.add(key)
@@ -233,12 +233,14 @@ class Report:
         for o in self.obls:
             if o.status == DISCHARGED:
                 backends[o.backend] = backends.get(o.backend, 0) + 1
-        n_proof_obl = sum(1 for o in self.obls if o.status != BOUNDED)
+        known_ids = {id(o) for _, o in known_hits}
+        n_proof_obl = sum(1 for o in self.obls if o.status != BOUNDED and id(o) not in known_ids)
         cov = {
             "obligations": n_proof_obl,
             "discharged": n_dis,
             "bounded_obligations": n_bnd,
             "bounded_detail": sorted({o.bound for o in self.obls if o.status == BOUNDED and o.bound}),
+            "known_failing_count": len(known_hits),
             "known_failing": [{"obligation": o.id, "finding": k.get("id")} for k, o in known_hits],
             "undecided": [o.id for o in undecided],
             "by_backend": backends,
